@@ -347,9 +347,24 @@ def check_case(ctx, c, stratum="op"):
             b = op._to_serial(n0).model_dump(mode="json")
             if a != b:
                 bad("sugar-vs-tag-encoding", c["sugar"], a, b)
-    # graph level: Hugr.port_type == payload of Hugr.port_kind on value output ports
+    # graph level: Hugr.port_type == payload of Hugr.port_kind on value output ports -- also where the node sits on an
+    # index that another node (with other ports, asked about before it was deleted) held earlier
     h = Hugr()
+    from hugr import tys as _tys
+
+    ctx.count("monitor:graph-port-type-on-recycled-index")
+    stale = h.add_node(ops.Custom("earlier", _tys.FunctionType([_tys.Qubit, _tys.Bool], [_tys.Qubit, _tys.Unit, _tys.Bool] * 3),
+                                  extension="verif.earlier"))
+    for off in range(9):
+        h.port_type(stale.out(off))
+        h.port_kind(stale.out(off))
+    for off in range(2):
+        h.port_type(stale.inp(off))
+        h.port_kind(stale.inp(off))
+    h.delete_node(stale)
     n = h.add_node(op)
+    if n.idx != stale.idx:
+        ctx.count("observed:freed-index-not-reused")
     for off, want in sp["out"].items():
         ctx.count("monitor:graph-port-type")
         p = n.out(off)
